@@ -543,9 +543,12 @@ mod if_alloc {
                 let mut_self: &mut StateReceiveFuture<MutexType, T> =
                     unsafe { Pin::get_unchecked_mut(self) };
 
+                // The handle stays inside the future while the channel is
+                // called: the call can unwind (a `Waker::clone` that panics),
+                // and `Drop` needs the handle to unlink the wait node.
                 let channel = mut_self
                     .channel
-                    .take()
+                    .as_ref()
                     .expect("polled StateReceiveFuture after completion");
 
                 let poll_res = unsafe {
@@ -555,8 +558,6 @@ mod if_alloc {
                 if poll_res.is_ready() {
                     // A value was available
                     mut_self.channel = None;
-                } else {
-                    mut_self.channel = Some(channel)
                 }
 
                 poll_res
